@@ -23,7 +23,7 @@ package dastard
 
 import (
 	"fmt"
-	"math/rand/v2"
+	"math/rand"
 	"runtime"
 	"sync/atomic"
 	"time"
@@ -104,6 +104,15 @@ func verifAcc(name string, obj interface{}, isWrite bool) {
 }
 
 func verifSync(kind, name string, obj interface{}) { verifC17Entry("syn."+kind, name, obj) }
+
+// verifClientUpdate logs the reception of a message by the client updater when the message carries named
+// state (the counts slice of a TRIGGERRATE message): the message's own object identifies the send it matches.
+func verifClientUpdate(update ClientUpdate) {
+	if m, ok := update.state.(TriggerRateMessage); ok && len(m.CountsSeen) > 0 {
+		verifSync("recv", "cm", &m.CountsSeen[0])
+		verifAcc("trs", &m.CountsSeen[0], false)
+	}
+}
 
 // VerifC17Point is verifPoint's lock-free replacement body in -race builds (the harness overlays
 // verif_point_on.go with a copy whose verifPoint starts with a call of this function).
